@@ -81,6 +81,13 @@ def run(ctx):
         ctx.require(st, f'from_data no longer stores backend.{attr}')
         ctx.formula('AGREE', f'backend.{attr} describes the input recording', fd, st[-1].data['value'], want, node=st[-1].node)
 
+    # the per-stream target statistics live in requantizer[a][p].quantizer_r/_i (set by _read_next_block): every
+    # (antenna, polarisation) entry must own its component quantisers, i.e. be a DEEP copy of the template
+    from .refs_backend import REF_BACKEND_INIT
+    agree_ref(ctx, ctx.func(B + '.__init__'), REF_BACKEND_INIT, 'RawVoltageBackend.__init__: every (antenna, polarisation) gets its own '
+              'deep copy of the digitiser / filterbank / requantiser template (per-stream target statistics are never shared)',
+              what=('attrstores',), expand=False, max_depth=0)
+
     # ---- D3 length clamp
     ctx.clause = 'D3'
     rec = ctx.func(B + '.record')
@@ -201,12 +208,22 @@ def run(ctx):
     r, I = ctx.run(rnb, heap={'num_bits': lift(8)}, expand=False, max_depth=0)
     ts = [e for e in I.events if e.kind == 'call' and e.data.get('name') == '._set_target_stats']
     ctx.require(len(ts) == 2, '_read_next_block: the two _set_target_stats calls were not found')
-    names = {}
-    for e in I.events:
-        if e.kind == 'store' and e.data.get('target') == 'name' and e.data['name'] in ('R', 'I') and e.data.get('aug') is None:
-            names[e.data['name']] = e.data['value']
+    # real / imaginary part of what the decoder stores as the complex input voltage (re + 1j*im)
+    dec = [e for e in I.events if e.kind == 'store' and e.data.get('target') == 'sub' and e.loops
+           and any(a.kind == 'J' or (a.kind == 'call' and a.args[0] == 'J') for a in T.all_atoms(e.data['value']).values())]
+    ctx.require(dec, '_read_next_block[8 bit]: the store of the decoded complex voltages was not found')
+    re_t, im_t = Term(), Term()
+    for m, c in dec[0].data['value'].p.items():
+        js = [(a, x) for a, x in m if a.kind == 'J' or (a.kind == 'call' and a.args[0] == 'J')]
+        rest = tuple((a, x) for a, x in m if not (a.kind == 'J' or (a.kind == 'call' and a.args[0] == 'J')))
+        if js:
+            im_t = im_t + Term({rest: c})
+        else:
+            re_t = re_t + Term({m: c})
+    names = {'R': re_t, 'I': im_t}
     for e in ts:
-        comp = 'quantizer_r' if 'quantizer_r' in ast.unparse(e.data['recv_node']) else 'quantizer_i'
+        ra = e.data['recv'].single_atom() if e.data.get('recv') is not None else None
+        comp = ra.args[1] if (ra is not None and ra.kind == 'attr') else ast.unparse(e.data['recv_node']).split('.')[-1]
         src = names.get('R' if comp == 'quantizer_r' else 'I')
         want = T.mk_tuple([T.mk_call('mean', [src]), T.mk_call('std', [src])]) if src is not None else NONE
         ctx.formula('ARGBIND', f'{comp} receives the mean and deviation of the decoded ' + ('real' if comp == 'quantizer_r' else 'imaginary') + ' parts',
